@@ -23,6 +23,7 @@ inductive Val where
   | list (vs : List Val)
   | dict (ks vs : List Val)     -- insertion-ordered keys and their values (same length)
   | tuple (vs : List Val)
+  | obj (c : Str) (fields : List Str) (vals : List Val)   -- an instance of the user class `c`: its instance dict (names, values)
 
 instance : Inhabited Val := ⟨.none⟩
 
@@ -52,6 +53,7 @@ def typeOf : Val → Ty
   | .list vs => .list (elemTy (typeOfL vs))
   | .dict ks vs => .dict (elemTy (typeOfL ks)) (elemTy (typeOfL vs))
   | .tuple vs => .tuple (Tys.ofList (typeOfL vs))
+  | .obj c _ _ => .cls c .nil
 def typeOfL : List Val → List Ty
   | [] => []
   | v :: vs => typeOf v :: typeOfL vs
@@ -68,6 +70,7 @@ def Val.render : Val → String
   | .list vs => "[" ++ Val.renderL vs ++ "]"
   | .tuple vs => "(" ++ Val.renderL vs ++ ")"
   | .dict ks vs => "{" ++ Val.renderL ks ++ "|" ++ Val.renderL vs ++ "}"
+  | .obj c _ _ => "<" ++ String.ofList c ++ ">"
 def Val.renderL : List Val → String
   | [] => ""
   | v :: vs => Val.render v ++ " " ++ Val.renderL vs
@@ -149,6 +152,7 @@ def truthy : Val → Bool
   | .list vs => !vs.isEmpty
   | .dict ks _ => !ks.isEmpty
   | .tuple vs => !vs.isEmpty
+  | .obj _ _ _ => true      -- (no `__bool__` / `__len__` in the modelled classes)
 
 mutual
 /-- Python `==` (numbers compare across int/bool/float; containers element-wise; dicts are outside the model) -/
@@ -560,6 +564,46 @@ def evalFunc (f : FName) (args : List Val) : Except Err Val :=
   | .enumerate_, [v] => (iterItems v).map fun items => .list (enumFrom 0 items)
   | _, _ => .error .unsupported
 
+/-! ## user classes: a small class-based heap semantics
+
+  An instance is its class plus its instance dict (`Val.obj`). What a program's method bodies compute is not modelled:
+  constructor, method / property / class-variable reads and `__next__` sequences are given by a `World` — the theorems
+  assume of it only that every such result conforms to the DECLARED type (`WorldConf`, Tranp/Model/InferSpec.lean), which
+  is each method's own typing obligation. -/
+
+structure World where
+  /-- `C(args)` -/
+  new : Str → List Val → Except Err Val
+  /-- `obj.m(args)` for a method or classmethod of the object's class (MRO = the linear base chain) -/
+  call : Val → Str → List Val → Except Err Val
+  /-- `obj.a` when `a` is not in the instance dict: class variable or property -/
+  classAttr : Val → Str → Except Err Val
+  /-- the values `it.__next__()` returns until it raises `StopIteration` -/
+  nexts : Val → Except Err (List Val)
+
+/-- a world without user classes (streams that contain none) -/
+def World.none : World :=
+  ⟨fun _ _ => .error .unsupported, fun _ _ _ => .error .unsupported, fun _ _ => .error .unsupported, fun _ => .error .unsupported⟩
+
+def fieldGet (names : List Str) (vals : List Val) (a : Str) : Option Val :=
+  match names, vals with
+  | n :: ns, v :: vs => if n = a then some v else fieldGet ns vs a
+  | _, _ => Option.none
+
+def s_iter : Str := ['_', '_', 'i', 't', 'e', 'r', '_', '_']
+
+/-- `for x in v`: CPython calls `iter(v)` and then `__next__` until `StopIteration`. For an instance that is `v.__iter__()`:
+    a builtin iterator (represented by the list of its items) or an object whose `__next__` results are the items. -/
+def iterItemsW (W : World) (v : Val) : Except Err (List Val) :=
+  match v with
+  | .obj _ _ _ =>
+    (match W.call v s_iter [] with
+     | .ok (.list vs) => .ok vs
+     | .ok (.obj c ns vs) => W.nexts (.obj c ns vs)
+     | .ok _ => .error .typeErr
+     | .error e => .error e)
+  | _ => iterItems v
+
 /-! ## expressions -/
 
 /-- bind the target names of a `for` clause to one item (tuple unpacking for several names) -/
@@ -582,7 +626,7 @@ def compLoop {α : Type} (f : Val → Except Err (Option α)) : List Val → Exc
 
 mutual
 /-- CPython's evaluation of an expression of the core in the environment `ρ` -/
-def eval (ρ : VEnv) : Expr → Except Err Val
+def eval (W : World) (ρ : VEnv) : Expr → Except Err Val
   | .int n => .ok (.int n)
   | .float x => .ok (.float x)
   | .str s => .ok (.str s)
@@ -591,86 +635,99 @@ def eval (ρ : VEnv) : Expr → Except Err Val
   | .none_ => .ok .none
   | .empty_ => .ok .none
   | .var x => (match lookup x ρ with | some v => .ok v | Option.none => .error .unsupported)
-  | .factor op e => do evalFactor op (← eval ρ e)
-  | .not_ e => do pure (.bool (!truthy (← eval ρ e)))
-  | .bin e rest => do evalChain ρ (← eval ρ e) rest
-  | .cmp e rest => do evalCmpChain ρ (← eval ρ e) rest
-  | .and_ es => evalAnd ρ es
-  | .or_ es => evalOr ρ es
-  | .tern a c b => do if truthy (← eval ρ c) then eval ρ a else eval ρ b
-  | .list es => do pure (.list (← evalList ρ es))
-  | .tuple es => do pure (.tuple (← evalList ρ es))
+  | .factor op e => do evalFactor op (← eval W ρ e)
+  | .not_ e => do pure (.bool (!truthy (← eval W ρ e)))
+  | .bin e rest => do evalChain W ρ (← eval W ρ e) rest
+  | .cmp e rest => do evalCmpChain W ρ (← eval W ρ e) rest
+  | .and_ es => evalAnd W ρ es
+  | .or_ es => evalOr W ρ es
+  | .tern a c b => do if truthy (← eval W ρ c) then eval W ρ a else eval W ρ b
+  | .list es => do pure (.list (← evalList W ρ es))
+  | .tuple es => do pure (.tuple (← evalList W ρ es))
   | .dict kvs => do
-    let ps ← evalPairs ρ kvs
+    let ps ← evalPairs W ρ kvs
     if ps.any (fun kv => !hashable kv.1) then .error .typeErr
     else if ps.any (fun kv => hasDict kv.1) then .error .unsupported
     else let (ks, vs) := dictOfPairs ps ([], []); pure (.dict ks vs)
-  | .index r k => do evalIndex (← eval ρ r) (← eval ρ k)
-  | .slice r lo hi => do evalSlice (← eval ρ r) (← eval ρ lo) (← eval ρ hi)
-  | .group e => eval ρ e
-  | .call r m args => do evalMethod (← eval ρ r) (methodOf m) (← evalList ρ args)
-  | .fcall f args => do evalFunc (funcOf f) (← evalList ρ args)
+  | .index r k => do evalIndex (← eval W ρ r) (← eval W ρ k)
+  | .slice r lo hi => do evalSlice (← eval W ρ r) (← eval W ρ lo) (← eval W ρ hi)
+  | .group e => eval W ρ e
+  | .attr r a => do
+    match (← eval W ρ r) with
+    | .obj c ns vs => (match fieldGet ns vs a with | some x => .ok x | Option.none => W.classAttr (.obj c ns vs) a)
+    | _ => .error .unsupported
+  | .call r m args => do
+    let recv ← eval W ρ r
+    let vs ← evalList W ρ args
+    match recv with
+    | .obj c ns fs => W.call (.obj c ns fs) m vs
+    | _ => evalMethod recv (methodOf m) vs
+  | .fcall f args => do
+    let vs ← evalList W ρ args
+    match funcOf f with
+    | .other => W.new f vs
+    | fn => evalFunc fn vs
   | .listComp proj vars src cond => do
-    let items ← iterItems (← eval ρ src)
+    let items ← iterItemsW W (← eval W ρ src)
     let out ← compLoop (fun item => do
       let ρ' := (← bindItem vars item) ++ ρ
-      if truthy (← eval ρ' cond) then pure (some (← eval ρ' proj)) else pure Option.none) items
+      if truthy (← eval W ρ' cond) then pure (some (← eval W ρ' proj)) else pure Option.none) items
     pure (.list out)
   | .dictComp k v vars src cond => do
-    let items ← iterItems (← eval ρ src)
+    let items ← iterItemsW W (← eval W ρ src)
     let out ← compLoop (fun item => do
       let ρ' := (← bindItem vars item) ++ ρ
-      if truthy (← eval ρ' cond) then
-        let kv ← eval ρ' k
-        let vv ← eval ρ' v
+      if truthy (← eval W ρ' cond) then
+        let kv ← eval W ρ' k
+        let vv ← eval W ρ' v
         if !hashable kv then .error .typeErr else if hasDict kv then .error .unsupported else pure (some (kv, vv))
       else pure Option.none) items
     let (ks, vs) := dictOfPairs out ([], [])
     pure (.dict ks vs)
-def evalList (ρ : VEnv) : Exprs → Except Err (List Val)
+def evalList (W : World) (ρ : VEnv) : Exprs → Except Err (List Val)
   | .nil => .ok []
   | .cons e es => do
-    let v ← eval ρ e
-    let vs ← evalList ρ es
+    let v ← eval W ρ e
+    let vs ← evalList W ρ es
     pure (v :: vs)
-def evalPairs (ρ : VEnv) : Pairs → Except Err (List (Val × Val))
+def evalPairs (W : World) (ρ : VEnv) : Pairs → Except Err (List (Val × Val))
   | .nil => .ok []
   | .cons k v rest => do
-    let kv ← eval ρ k
-    let vv ← eval ρ v
-    let r ← evalPairs ρ rest
+    let kv ← eval W ρ k
+    let vv ← eval W ρ v
+    let r ← evalPairs W ρ rest
     pure ((kv, vv) :: r)
 /-- `l op e1 op e2 …`, left-associative, operands evaluated left to right -/
-def evalChain (ρ : VEnv) (l : Val) : Chain → Except Err Val
+def evalChain (W : World) (ρ : VEnv) (l : Val) : Chain → Except Err Val
   | .nil => .ok l
   | .cons op e rest => do
-    let r ← eval ρ e
+    let r ← eval W ρ e
     let v ← evalBin op l r
-    evalChain ρ v rest
+    evalChain W ρ v rest
 /-- `l op e1 op e2 …` as a chained comparison: `(l op e1) and (e1 op e2) and …`, lazily -/
-def evalCmpChain (ρ : VEnv) (l : Val) : Chain → Except Err Val
+def evalCmpChain (W : World) (ρ : VEnv) (l : Val) : Chain → Except Err Val
   | .nil => .ok (.bool true)
   | .cons op e rest => do
-    let r ← eval ρ e
+    let r ← eval W ρ e
     let c ← evalCmp op l r
     if !c then pure (.bool false)
     else match rest with
       | .nil => pure (.bool true)
-      | rest' => evalCmpChain ρ r rest'
+      | rest' => evalCmpChain W ρ r rest'
 /-- `e1 and e2 and …`: the first falsy operand, else the last -/
-def evalAnd (ρ : VEnv) : Exprs → Except Err Val
+def evalAnd (W : World) (ρ : VEnv) : Exprs → Except Err Val
   | .nil => .ok (.bool true)
-  | .cons e .nil => eval ρ e
+  | .cons e .nil => eval W ρ e
   | .cons e es => do
-    let v ← eval ρ e
-    if truthy v then evalAnd ρ es else pure v
+    let v ← eval W ρ e
+    if truthy v then evalAnd W ρ es else pure v
 /-- `e1 or e2 or …`: the first truthy operand, else the last -/
-def evalOr (ρ : VEnv) : Exprs → Except Err Val
+def evalOr (W : World) (ρ : VEnv) : Exprs → Except Err Val
   | .nil => .ok (.bool false)
-  | .cons e .nil => eval ρ e
+  | .cons e .nil => eval W ρ e
   | .cons e es => do
-    let v ← eval ρ e
-    if truthy v then pure v else evalOr ρ es
+    let v ← eval W ρ e
+    if truthy v then pure v else evalOr W ρ es
 end
 
 end Tranp.Infer
